@@ -5,7 +5,6 @@ use itertools::Itertools;
 use std::collections::HashMap;
 use std::fmt::Debug;
 use std::marker::PhantomData;
-use std::mem::take;
 use ultraviolet::f32x8;
 
 pub mod builder;
@@ -531,6 +530,19 @@ where
         let last_observations = self.observations.clone();
         let last_metric = self.metric.clone();
 
+        // the history the track gets when the merge succeeds: extended by the source history
+        // exactly once (not once per class), or left as it is when history is disabled
+        let new_merge_history = if merge_history {
+            self.merge_history
+                .iter()
+                .chain(other.merge_history.iter())
+                .cloned()
+                .collect::<Vec<_>>()
+        } else {
+            self.merge_history.clone()
+        };
+        let mut merged_any_class = false;
+
         for cls in classes {
             let dest = self.observations.get_mut(cls);
             let src = other.observations.get(cls);
@@ -552,20 +564,10 @@ where
 
                 _ => None,
             };
-            let merge_history = if merge_history {
-                self.merge_history
-                    .iter()
-                    .chain(other.merge_history.iter())
-                    .cloned()
-                    .collect::<Vec<_>>()
-            } else {
-                take(&mut self.merge_history)
-            };
-
             if let Some(prev_length) = prev_length {
                 let res = self.metric.optimize(
                     *cls,
-                    &merge_history,
+                    &new_merge_history,
                     &mut self.attributes,
                     self.observations.get_mut(cls).unwrap(),
                     prev_length,
@@ -579,8 +581,12 @@ where
                     res?;
                     unreachable!();
                 }
-                self.merge_history = merge_history;
+                merged_any_class = true;
             }
+        }
+
+        if merged_any_class {
+            self.merge_history = new_merge_history;
         }
 
         self.notifier.send(self.track_id);
